@@ -28,17 +28,21 @@ RULE = ("each evaluation is one seeded history of 3-30 session commands "
         "module files appearing and disappearing/caller-supplied (also "
         "nested, also foreign) environment/ls probe/heal/clock jump/repeat/"
         "verbatim re-issue) against 1-2 interleaved real Interpreter "
-        "instances - through direct interpret calls or through the real REPL "
-        "loop - on a simulated module store, with planned failures and "
+        "instances - through direct interpret calls, through the real REPL "
+        "loop or through one real ckl.run.main() call per command - on a simulated module store, with planned failures and "
         "injected store/stream faults; distinct = distinct (command-kind "
         "sequence, instance schedule, fault sequence) fingerprints; "
         "non-trivial = at least one command failed and at least one later "
         "command was checked after it")
 REAL = ["ckl.lexer", "ckl.parser", "ckl.nodes", "ckl.functions",
-        "ckl.values", "ckl.interpreter.Interpreter", "bundled .ckl modules"]
+        "ckl.values", "ckl.interpreter.Interpreter", "bundled .ckl modules",
+        "ckl.repl.main (REPL-hosted sessions)", "ckl.run.main (run-hosted sessions)"]
 STUBBED = ["file system (real-backed virtual FS under /sim)",
            "pkgutil resource reads (proxied, fault site)",
-           "stdout/stdin objects", "clock", "PRNG state", "HOME"]
+           "stdout/stdin objects", "clock", "PRNG state", "HOME",
+           "run host: the Interpreter constructor seen by ckl.run returns "
+           "the same interpreter on every call (a real run process ends "
+           "after one script); everything else in ckl.run.main is real"]
 ASSUMPTIONS = [
     "the reference model (simckl/lang.py) states the intended session "
     "semantics; error message texts are only ever compared between two "
@@ -52,12 +56,12 @@ REQUIRED_PROBES = {
     "quick": ["failed_then_later_checked", "require_after_failed_require",
               "faulted_require_then_retry", "cached_module_path",
               "two_instances", "scratch_env", "repeat_checked",
-              "env_moved_between_instances", "repl_commands",
+              "env_moved_between_instances", "repl_commands", "run_commands",
               "store_changed_mid_session", "deep_caller_env"],
     "thorough": ["failed_then_later_checked", "require_after_failed_require",
                  "faulted_require_then_retry", "cached_module_path",
                  "two_instances", "scratch_env", "repeat_checked",
-                 "env_moved_between_instances", "repl_commands",
+                 "env_moved_between_instances", "repl_commands", "run_commands",
                  "store_changed_mid_session", "deep_caller_env"],
 }
 
@@ -259,6 +263,8 @@ def gen_case(rng, tier, k):
     host = "api"
     if not two and loc in ("home", "session") and rng.random() < 0.45:
         host = "repl"          # the real REPL loop is the host
+        if rng.random() < 0.3:
+            host = "run"       # ckl.run.main executes every command
     files.update(late_files)
     case = {"config": {"instances": insts, "store": store,
                        "share_env": share_env, "host": host,
@@ -502,7 +508,7 @@ def gen_case(rng, tier, k):
             except Unspec:
                 break
             continue
-        if host != "repl" and rng.random() < (0.4 if share_env else 0.15):
+        if host == "api" and rng.random() < (0.4 if share_env else 0.15):
             env = rng.choice(["E1", "E2"])
         scope = scope_of(inst, env)
         if scope is None:
@@ -539,7 +545,7 @@ def gen_case(rng, tier, k):
                 op = copy.deepcopy(rng.choice(earlier))
                 op["faults"] = []
                 op.pop("repeat", None)
-                if host != "repl":
+                if host == "api":
                     op["inst"] = rng.choice(insts)["name"]
             else:
                 op = copy.deepcopy(last_cmd)
